@@ -49,6 +49,15 @@ Definition model_out (c : case) : Z * list Z :=
   else if t =? 7 then out_of (cke_decode bs) cke_digest
   else if t =? 8 then out_of (finished_decode bs) cke_digest
   else if t =? 9 then out_of (server_on_client_hello bs) (fun x => [fst x; snd x])
+  else if t =? 12 then
+    (* every input = [total(3); offset(3); body...] of one ClientHello fragment with message_seq 0 *)
+    out_of (server_on_fragments
+              (map (fun i => match i with
+                             | t2 :: t1 :: t0 :: o2 :: o1 :: o0 :: body =>
+                                 mkFrag (t2 * 65536 + t1 * 256 + t0) 0 (o2 * 65536 + o1 * 256 + o0) body
+                             | _ => mkFrag 0 0 0 []
+                             end) (k_ins c)))
+           (fun x => [fst x; snd x])
   else if t =? 10 then out_of (dcep_open_unmarshal bs) open_digest
   else if t =? 11 then out_of (dcep_ack_unmarshal bs) (fun x => [x])
   else if t =? 20 then h264_run (negb (aux_n c 0 =? 0)) h264_init (k_ins c) []
@@ -71,6 +80,9 @@ Definition model_out (c : case) : Z * list Z :=
     | Err _ => (0, [0; 0])
     | r => (verdict r, [])
     end
+  else if t =? 46 then
+    (* a DATA chunk value on a live endpoint: 1 = long enough to be processed, 0 = ignored *)
+    out_of (data_chunk_dcep bs) (fun x => match x with None => [0] | Some _ => [1] end)
   else if t =? 50 then
     out_of (cand_parse (negb (aux_n c 0 =? 0)) (fun i => negb (nth (Z.to_nat (i + 1)) (k_aux c) 0 =? 0)) (k_ins c)) cand_digest
   else if t =? 60 then out_of (turn_tcp_frame true (aux_n c 0) (aux_n c 1)) (fun _ => [])
